@@ -2,6 +2,7 @@
   C05 — Branches, jumps, calls and returns obey the condition table and stack discipline.
 -/
 import H8.Props.Common
+import H8.Lemmas.Cost
 namespace H8.Props.C05
 open H8 H8.Lemmas H8.Props
 
@@ -23,6 +24,97 @@ theorem call_frame_roundtrip (pc : BitVec 32) (h : BitVec.ule pc 0xffffff#32 = t
 theorem disp8_sign_extend (d : BitVec 8) (pc : BitVec 32) :
     pc + d.signExtend 32 = pc + Spec.sx8 d := by
   simp [Spec.sx8]
+
+/-! ### the branch handlers -/
+
+theorem pcDisp_ok (d : BitVec 32) (s s' : Cpu) (h : pcDisp d s = .ok () s') :
+    s' = { s with pc := s.pc + d } ∧ (s.pc + d).getLsbD 0 = false := by
+  unfold pcDisp at h
+  simp only at h
+  split at h
+  · simp at h
+  · split at h
+    · simp at h
+    · rename_i hodd
+      simp only [Res.ok.injEq, true_and] at h
+      exact ⟨h.symm, by simpa using hodd⟩
+
+/-- **Bcc d:8, all 16 conditions**: whenever the handler completes, PC is the address of the following
+    instruction (the PC after the fetch) plus the sign-extended displacement if the manual's condition holds
+    for the CCR, and unchanged otherwise; no flag, register or memory byte changes; an odd target is refused. -/
+theorem bcc8_handler (c : BitVec 4) (op : BitVec 16) (st st' : Cpu) (cost : BitVec 8)
+    (h : bcc8 c op st = .ok cost st') :
+    st' = { st with pc := if Spec.cond c st.ccr then st.pc + Spec.sx8 (op.setWidth 8) else st.pc } ∧
+    (Spec.cond c st.ccr = true → (st.pc + Spec.sx8 (op.setWidth 8)).getLsbD 0 = false) := by
+  simp only [bcc8, bind_ok, get_ok] at h
+  rw [cond_table] at h
+  by_cases hc : Spec.cond c st.ccr = true
+  · simp only [hc, if_true] at h ⊢
+    simp only [bind_ok, pure_ok] at h
+    split at h
+    · rename_i u s1 h1
+      obtain ⟨e1, e2⟩ := pcDisp_ok _ _ _ h1
+      have := costI_state h; subst this
+      subst e1
+      exact ⟨by simp [Spec.sx8], fun _ => by simpa [Spec.sx8] using e2⟩
+    · simp at h
+    · simp at h
+  · have hf : Spec.cond c st.ccr = false := by simpa using hc
+    simp only [hf, Bool.false_eq_true, if_false, pure_ok] at h ⊢
+    have := costI_state h; subst this
+    exact ⟨rfl, fun h' => by cases h'⟩
+
+-- `h : (match costI … with | ok c1 s1 => match calcState … s1 with …) = ok cost st'`  ⊢  closes `st' = <that state>`
+set_option hygiene false in
+local macro "cost2_inline" : tactic => `(tactic|
+  (split at h
+   · rename_i c1 sa h1; have := costI_state h1; subst this
+     split at h
+     · rename_i c2 sb h2; have := calcState_state h2; subst this; injection h with _ h; exact h.symm
+     · simp at h
+     · simp at h
+   · simp at h
+   · simp at h))
+
+/-- **Bcc d:16**: the same, relative to the state after the displacement word has been fetched -/
+theorem bcc16_handler (c : BitVec 4) (st s1 st' : Cpu) (op2 : BitVec 16) (cost : BitVec 8)
+    (hf : fetch st = .ok op2 s1) (h : bcc16 c st = .ok cost st') :
+    st' = { s1 with pc := if Spec.cond c s1.ccr then s1.pc + Spec.sx16 op2 else s1.pc } ∧
+    (Spec.cond c s1.ccr = true → (s1.pc + Spec.sx16 op2).getLsbD 0 = false) := by
+  simp only [bcc16, bind_ok, hf, get_ok] at h
+  rw [cond_table] at h
+  by_cases hc : Spec.cond c s1.ccr = true
+  · simp only [hc, if_true] at h ⊢
+    simp only [bind_ok, pure_ok] at h
+    split at h
+    · rename_i u s2 h1
+      obtain ⟨e1, e2⟩ := pcDisp_ok _ _ _ h1
+      have hs : st' = s2 := by cost2_inline
+      subst hs
+      subst e1
+      exact ⟨by simp [Spec.sx16], fun _ => by simpa [Spec.sx16] using e2⟩
+    · simp at h
+    · simp at h
+  · have hf' : Spec.cond c s1.ccr = false := by simpa using hc
+    simp only [hf', Bool.false_eq_true, if_false, pure_ok] at h ⊢
+    simp only [bind_ok, pure_ok] at h
+    have hs : st' = s1 := by cost2_inline
+    subst hs
+    exact ⟨rfl, fun h' => by cases h'⟩
+
+/-- **JMP @ERn**: PC := low 24 bits of ERn (the upper byte of the register is ignored), nothing else changes —
+    for every register number and every register file -/
+theorem JMP_REG_handler (op : BitVec 16) (st st' : Cpu) (cost : BitVec 8)
+    (hp : Spec.Form.pat .JMP_REG op 0 0 0 0 = true) (h : jmpErn op st = .ok cost st') :
+    st' = { st with pc := Spec.low24 (Spec.getER st.regs ((op.extractLsb' 4 3))) } := by
+  rw [Spec.pat_JMP_REG] at hp; simp only [Bool.and_eq_true, beq_iff_eq] at hp
+  have h3 : (nib op 3).ule 7#8 = true := by (simp only [nib]; bv_decide)
+  simp only [jmpErn, bind_ok, readRnL_ok _ _ h3, modify_ok] at h
+  have := costI_state h; subst this
+  congr 1
+  generalize st.regs = r
+  simp only [Spec.low24, getER_eq, getEr, setEr, shOf, nib, ADDRESS_MASK, Spec.z4, Spec.lo3]
+  bv_decide
 
 -- non-vacuity of `cond_table`: BGT is taken for CCR = 0 and not for Z = 1
 example : bccTaken 14 0x00 = true ∧ bccTaken 14 0x04 = false := by decide
